@@ -38,6 +38,7 @@ type c03AppStep struct {
 	In       string `json:"in"`
 	Out      string `json:"out"`
 	Amt      string `json:"amount"`
+	Split    bool   `json:"split,omitempty"` // the same request queued twice in one block
 	Result   string `json:"result"`
 }
 
@@ -305,7 +306,18 @@ func c03AppHistory(t *testing.T, col *Collector, seed int64, hi int, verbose boo
 			kind += "_cp"
 		}
 		step := c03AppStep{Pool: p.id, ExactOut: exactOut, In: in, Out: out, Amt: amt.String()}
+		// a SPLIT step: the same trader queues the same request twice in one block (constant-product pools). Splitting a
+		// trade must not beat doing it in one piece (C03_split_no_gain): the two pieces are judged together against the
+		// pool function on the state before the block, applied to twice the amount.
+		split := hi != 0 && !pool0.PoolParams.UseOracle && r.Chance(22)
+		step.Split = split
 		tx := w.Deliver(msg)
+		if split && tx.OK() {
+			if t2 := w.Deliver(msg); !t2.OK() {
+				split = false
+				step.Split = false
+			}
+		}
 		if !tx.OK() {
 			col.Op(kind, "rejected", amt)
 			step.Result = "rejected"
@@ -318,7 +330,11 @@ func c03AppHistory(t *testing.T, col *Collector, seed int64, hi int, verbose boo
 		if exactOut {
 			pk = "in"
 		}
-		c, pool, okc := c03SnapCase(w, p.id, in, out, amt, fee, pk)
+		judged := amt
+		if split {
+			judged = new(big.Int).Mul(amt, big.NewInt(2))
+		}
+		c, pool, okc := c03SnapCase(w, p.id, in, out, judged, fee, pk)
 		trAddr := pool.GetRebalanceTreasury()
 		tr := sdk.MustAccAddressFromBech32(trAddr)
 		trBefore := c03BigOf(w.Bal(tr, out))
@@ -365,6 +381,45 @@ func c03AppHistory(t *testing.T, col *Collector, seed int64, hi int, verbose boo
 		if other.Sign() != 0 || new(big.Int).Add(fromPool, fromTr).Cmp(got) != 0 || fromTr.Cmp(trBefore) > 0 || (fromTr.Sign() > 0 && !pool.PoolParams.UseOracle) {
 			col.Violate(Violation{Signature: c03SigBonus, Detail: fmt.Sprintf("recipient got %s %s: %s from the pool, %s from the rebalance treasury (balance before %s), %s from elsewhere", got, out, fromPool, fromTr, trBefore, other),
 				History: hidx, Step: si, Replay: replay})
+		}
+		if split {
+			// both pieces must have been executed, else there is nothing to compare (a piece that could not be filled is C04's business)
+			if (exactOut && fromPool.Cmp(judged) != 0) || (!exactOut && paid.Cmp(judged) != 0) || !okc {
+				col.Op(kind+"_split", "partly_executed", amt)
+				continue
+			}
+			col.Op(kind+"_split", "ok", amt)
+			col.ImplCheck(1)
+			// the second piece may enjoy a tier discount that the first piece's execution brought about (the tier hook
+			// computes the trader's portfolio at the first swap): judge against the LOWER of the two fees (sound: a lower fee
+			// pays more / charges less)
+			if _, t2 := w.App.TierKeeper.GetMembershipTier(w.QCtx(), sender); !t2.Discount.IsNil() && t2.Discount.GT(discount) {
+				c.Fee = ammtypes.ApplyDiscount(pool0.PoolParams.SwapFee, t2.Discount).BigInt().String()
+			}
+			// slack: one unit per piece and per rounding step, the 1e-8 relative precision of Pow for unequal weights, and
+			// reserve/1e18 per piece for the ratio rounding of solveConstantFunctionInvariant (the open finding's cause)
+			slack := func(v *big.Int) *big.Int {
+				sl := big.NewInt(6)
+				sl.Add(sl, new(big.Int).Div(v, big.NewInt(50_000_000)))
+				for _, b := range []string{c.Bin, c.Bout} {
+					sl.Add(sl, new(big.Int).Div(c03BigS(b), new(big.Int).Exp(big.NewInt(10), big.NewInt(17), nil)))
+				}
+				return sl
+			}
+			if exactOut {
+				pr := c.calcIn()
+				if pr.Code == 0 && new(big.Int).Add(paid, slack(pr.V1)).Cmp(pr.V1) < 0 {
+					col.Violate(Violation{Signature: "C03:split-exact-out-cheaper-than-one-piece", Detail: fmt.Sprintf("two exact-out requests of %s each in one block cost %s in total; one request of %s on the state before the block costs %s: %+v", amt, paid, judged, pr.V1, c),
+						History: hidx, Step: si, Replay: replay})
+				}
+			} else {
+				pr := c.calcOut()
+				if pr.Code == 0 && new(big.Int).Add(pr.V1, slack(pr.V1)).Cmp(fromPool) < 0 {
+					col.Violate(Violation{Signature: "C03:split-exact-in-pays-more-than-one-piece", Detail: fmt.Sprintf("two exact-in requests of %s each in one block were paid %s in total; one request of %s on the state before the block is paid %s: %+v", amt, fromPool, judged, pr.V1, c),
+						History: hidx, Step: si, Replay: replay})
+				}
+			}
+			continue
 		}
 		if (exactOut && fromPool.Cmp(amt) != 0) || (!exactOut && paid.Cmp(amt) != 0) {
 			col.Violate(Violation{Signature: c03SigAppSettl, Detail: fmt.Sprintf("requested %s, paid %s, pool paid %s", amt, paid, fromPool), History: hidx, Step: si, Replay: replay})
